@@ -31,10 +31,22 @@ fn tame_huge(mut case: Case) -> Case {
     };
     if h {
         let fix = |e: &mut crate::env::EnvPlan| e.modes = vec![crate::env::IoMode::Whole];
+        // every result holding the multi-megabyte entry is copied into the transcript: keep such runs short
         match &mut case {
             Case::File(c) => fix(&mut c.env),
-            Case::Cursor(c) => fix(&mut c.env),
-            Case::Iter(c) => fix(&mut c.env),
+            Case::Cursor(c) => {
+                fix(&mut c.env);
+                c.steps.truncate(60);
+                for st in c.steps.iter_mut() {
+                    if let Op::NextN(k) | Op::PrevN(k) = &mut st.op {
+                        *k = (*k).min(12);
+                    }
+                }
+            }
+            Case::Iter(c) => {
+                fix(&mut c.env);
+                c.queries.truncate(6);
+            }
             Case::Merge(c) => fix(&mut c.env),
             Case::Sort(c) => fix(&mut c.env),
             Case::Open(_) => {}
